@@ -1488,6 +1488,87 @@ pub fn exec_set<const N: usize>(cage: &mut Cage<Set<Key, N>>, op: &Value, ctx: &
                 _ => json!(["panic"]),
             }
         }
+        "b_eq" | "b_pred" | "b_alg" | "b_sub" => {
+            // binary operations against a second set holding the classes op.b (objects 50 + i);
+            // the same episodes as the micro model (MapMicro.tla, "binary" family)
+            let mut b = Set::<Key, N>::new();
+            {
+                // (under a comparison script the operand is built like the state: every key appended)
+                let saved = ledger::with(|l| (l.eq_script.take(), l.in_call, l.panic_at));
+                ledger::with(|l| {
+                    l.eq_script = Some(vec![]);
+                    l.eq_default = false;
+                    l.in_call = true;
+                    l.panic_at = 0;
+                });
+                let (cb0, pos0) = ledger::with(|l| (l.cb, l.eq_pos));
+                for (idx, c) in op["b"].as_array().unwrap().iter().enumerate() {
+                    let k = Key::new(c.as_u64().unwrap() as Cls, 1);
+                    ctx.tags.bind_k(50 + idx as i64 + 1, k.serial);
+                    ctx.stash_serials.push(k.serial);
+                    b.insert(k);
+                }
+                ledger::with(|l| {
+                    l.eq_script = saved.0;
+                    l.in_call = saved.1;
+                    l.panic_at = saved.2;
+                    l.cb = cb0;
+                    l.eq_pos = pos0;
+                    l.eq_overrun = 0;
+                    let keep = l.cb_log.len().min(cb0 as usize);
+                    l.cb_log.truncate(keep);
+                });
+            }
+            let b = Box::new(b);
+            let a = &cage.m;
+            let bb: &Set<Key, N> = &b;
+            let r = match name {
+                "b_eq" => json!(["b", call(ctx, || a == bb)]),
+                "b_pred" => json!(["b", match s(op, "p") {
+                    "is_subset" => call(ctx, || a.is_subset(bb)),
+                    "is_superset" => call(ctx, || a.is_superset(bb)),
+                    _ => call(ctx, || a.is_disjoint(bb)),
+                }]),
+                "b_alg" => {
+                    let n = i(op, "n") as usize;
+                    fn drive<'x, I: Iterator<Item = &'x Key>>(ctx: &mut Ctx, mut it: I, n: usize) -> usize {
+                        let mut got = 0;
+                        for _ in 0..n {
+                            match call(ctx, || it.next().map(|k| k.check("set algebra item"))) {
+                                Some(Some(_)) => got += 1,
+                                _ => break,
+                            }
+                        }
+                        got + call(ctx, || {
+                            it.fold(0usize, |c, k| {
+                                k.check("set algebra item");
+                                let _s = ledger::Suspend::new();
+                                ledger::maybe_panic('g', 0, 0);
+                                c + 1
+                            })
+                        })
+                        .unwrap_or(0)
+                    }
+                    let cnt = match s(op, "kind") {
+                        "union" => drive(ctx, a.union(bb), n),
+                        "intersection" => drive(ctx, a.intersection(bb), n),
+                        "difference" => drive(ctx, a.difference(bb), n),
+                        _ => drive(ctx, a.symmetric_difference(bb), n),
+                    };
+                    json!(["n", cnt])
+                }
+                _ => match call(ctx, || a - bb) {
+                    None => json!(["panic"]),
+                    Some(d) => {
+                        let cnt = d.iter().map(|k| k.check("element of a - b")).count();
+                        let _ = call(ctx, || drop(d));
+                        json!(["n", cnt])
+                    }
+                },
+            };
+            ctx.stash.push(b);
+            r
+        }
         "s_default" => {
             match call(ctx, Set::<Key, N>::default) {
                 None => json!(["panic"]),
